@@ -138,7 +138,7 @@ def assoc_const(P, ty, name):
 def r4(ctx):
     P = ctx.P
     eng = T.Engine(P, opaque=LOOKUPS)
-    src, color, comb, mask = ("param", 0, "src"), None, None, None
+    src, color, comb, mask = ("param", 0, "a0"), None, None, None
     want = {
         "Knight": lambda a: [("app", "chess_lookup::knight_moves", (a[0],))],
         "King": lambda a: [("app", "chess_lookup::king_moves", (a[0],))],
@@ -174,56 +174,78 @@ def r1(ctx):
     key = MG + "iter::<impl chess_movegen::Board>::collect_moves"
     ctx.used_body(key)
     body = P.body(key)
-    gens = {}
-    for bi, t in P.calls(key):
-        fa = t["f"].get("fn_args", "")
-        if "::legals::<" in fa:
-            g, calls = k2.guards_of(P, key, bi), None
-            gc = k2.guard_calls(k2.guards_of(P, key, bi))
-            none = [v[0] for c, v in gc.items() if c.endswith("BitBoard::none")]
-            cnt = [taken for d, taken, _ in k2.guards_of(P, key, bi) if d[0] == "bin" and d[1] == "Eq" and ("int", 1, "u8") in d[2:] and any(x[0] == "call" and x[1].endswith("BitBoard::count") for x in d[2:])]
-            ty = fa.split(PT)[1].split(" as")[0] if fa.startswith("<") else fa.split(PT)[1].split("::")[0]
-            flag = fa.rsplit("::<", 1)[1].rstrip(">")
-            branch = "no_check" if none == [True] else ("one_checker" if (none == [False] and cnt and cnt[0] not in (0,)) else "otherwise")
-            if none == [False] and not cnt:
-                branch = "any_check"
-            gens.setdefault(branch, set()).add((ty, flag))
-    six = {"Pawn", "Knight", "Bishop", "Rook", "Queen", "King"}
-    ctx.ob("no checker", gens.get("no_check") == {(t, "false") for t in six}, f"with no checker collect_moves runs {sorted(gens.get('no_check', []))}; expected all six generators with IS_IN_CHECK = false",
-           site=body.get("def_span"), sample=sorted(gens.get("no_check", [])))
-    one = gens.get("one_checker", set())
-    anyc = gens.get("any_check", set())
-    ctx.ob("one checker", one == {(t, "true") for t in six - {"King"}}, f"with exactly one checker collect_moves runs {sorted(one)}; expected the five non-king generators with IS_IN_CHECK = true",
-           site=body.get("def_span"), sample=sorted(one))
-    ctx.ob("any check: king", anyc == {("King", "true")}, f"under check (one or more checkers) collect_moves runs {sorted(anyc)} unconditionally; expected King with IS_IN_CHECK = true", site=body.get("def_span"),
-           sample=sorted(anyc))
-    # the emptiness/count tests are on self.checkers
-    eng = T.Engine(P, opaque={k for k in P.fns if "::legals" in k and PT in k})
+    # evaluate the extracted dispatch on the number of checkers n = |self.checkers| (the only input the branches may read)
+    gen_fns = {k for k in P.fns if "::legals" in k and "PieceType" in k}
+    eng = T.Engine(P, opaque=gen_fns)
+    eng.trace_calls = set(gen_fns)
     lv = eng.tabulate(key)
     slf = ("obj", ("param", 0, "self"))
     ch = word(fld(slf, "checkers"))
-    tests = {t for lf in lv for t, v in lf.cond if t[0] != "assert"}
-    want = {("bin", "Eq", ch, T.I(0, "u64")), ("bin", "Eq", ("cast", "u8", ("count_ones", ch)), T.I(1, "u8"))}
-    ctx.ob("dispatch predicates", {acnorm(t) for t in tests} == {acnorm(t) for t in want}, f"collect_moves dispatches on {[T.show(t)[:80] for t in tests]}; expected checkers == 0 and count(checkers) == 1",
-           site=body.get("def_span"))
-    # own pieces are excluded from every destination set: mask = !raw[turn] & mask
-    ok = False
+
+    def ev(t_, n):
+        if t_[0] == "int":
+            return t_[1]
+        if t_[0] == "cast":
+            return ev(t_[2], n)
+        if t_[0] == "count_ones" and t_[1] == ch:
+            return n
+        if t_[0] == "bin" and t_[1] in ("Eq", "Ne") and ch in t_[2:] and any(x[0] == "int" and x[1] == 0 for x in t_[2:]):
+            return int((n == 0) == (t_[1] == "Eq"))
+        if t_[0] == "bin" and t_[1] in ("Eq", "Ne", "Lt", "Le", "Gt", "Ge"):
+            a_, b_ = ev(t_[2], n), ev(t_[3], n)
+            return int({"Eq": a_ == b_, "Ne": a_ != b_, "Lt": a_ < b_, "Le": a_ <= b_, "Gt": a_ > b_, "Ge": a_ >= b_}[t_[1]])
+        if t_[0] == "un" and t_[1] == "Not":
+            return 1 - ev(t_[2], n)
+        raise AnchorError(f"collect_moves branches on {T.show(t_)[:100]}, which is not a function of the number of checkers")
+
+    def holds(lf, n):
+        for t_, v in lf.cond:
+            if t_[0] == "assert":
+                continue
+            x = ev(t_, n)
+            if isinstance(v, tuple) and v and v[0] == "not":
+                if x in v[1]:
+                    return False
+            elif x != v:
+                return False
+        return True
+
+    def gens_of(lf):
+        out = []
+        for tr in lf.trace:
+            if tr[0] == "call" and tr[1] in gen_fns:
+                fa = tr[3]
+                ty = fa.split(PT)[1].split(" as")[0] if fa.startswith("<") else fa.split(PT)[1].split("::")[0]
+                out.append((ty, fa.rsplit("::<", 1)[1].rstrip(">")))
+        return out
+    six = {"Pawn", "Knight", "Bishop", "Rook", "Queen", "King"}
+    want = {0: sorted((t_, "false") for t_ in six), 1: sorted((t_, "true") for t_ in six), 2: [("King", "true")]}
+    names = {0: "no checker", 1: "one checker", 2: "two or more checkers"}
+    for n in (0, 1, 2, 3, 5, 16):
+        hit = [lf for lf in lv if holds(lf, n)]
+        if len(hit) != 1:
+            raise AnchorError(f"collect_moves: {len(hit)} paths for {n} checkers")
+        got = sorted(gens_of(hit[0]))
+        w = want[min(n, 2)]
+        ctx.ob(f"{names[min(n, 2)]} (n={n})", got == w, f"with {n} checker(s) collect_moves runs {got}; expected {w} "
+               "(no check: all six generators unrestricted; single check: every piece may answer; double check: king moves only)", site=body.get("def_span"), sample={"n": n, "generators": got})
+    # own pieces are excluded from every destination set: every generator receives !raw[turn] & mask and the board itself
+    prm = [("param", i, body["locals"][i + 1].get("n", f"arg{i}")) for i in range(body["argc"])]
+    own = word(("index", fld(fld(slf, "raw"), "colors"), ("cast", "usize", ("discr", fld(slf, "turn")))))
+    want_mask = acnorm(("bin", "BitAnd", ("field", prm[1], "0"), ("un", "Not", own)))
+    bad = []
+    n_calls = 0
     for lf in lv:
-        for c in [x for x in subterms(lf.ret) if x[0] == "app"] + [t for t, _ in lf.cond]:
-            pass
-    calls = [(bi, t) for bi, t in P.calls(key) if "::legals::<" in t["f"].get("fn_args", "")]
-    masks = set()
-    k2.EXPAND_NAMED[0] = True
-    try:
-        for _, t in calls:
-            l = t["a"][2]["p"]["l"]
-            defs = k2.local_defs(body, l)
-            masks.add(str(k2.describe_def(P, body, defs[0][0], defs[0][2])) if len(defs) == 1 else "?")
-    finally:
-        k2.EXPAND_NAMED[0] = False
-    m0 = list(masks)[0] if masks else ""
-    ok_mask = len(masks) == 1 and "BitAnd for chess_bitboard::BitBoard>::bitand" in m0 and "Not for chess_bitboard::BitBoard>::not" in m0 and "'turn'" in m0 and "('place', 'mask', ())" in m0
-    ctx.ob("own squares excluded", ok_mask, f"the destination mask passed to the generators is {m0[:200]}; expected !raw[turn] & mask", site=body.get("def_span"))
+        for tr in lf.trace:
+            if tr[0] == "call" and tr[1] in gen_fns:
+                n_calls += 1
+                m = tr[2][2]
+                got = acnorm(m[3][0]) if m[0] == "adt" and m[2] == "BitBoard" else None
+                if got != want_mask or tr[2][1] != ("refv", slf):
+                    bad.append(T.show(m)[:160])
+    ctx.floor("generator calls over all dispatch paths", n_calls, 13)
+    ctx.ob("own squares excluded", not bad, f"a generator is called with destination mask {bad[:1]}; expected !raw[turn] & mask on this very board", site=body.get("def_span"),
+           sample={"generator calls": n_calls})
 
 
 @rule("C01.R2", "check mask; non-king generators: domains, destinations, pinned restriction")
@@ -234,7 +256,7 @@ def r2(ctx):
     ctx.used_body(CHECK_MASK)
     eng = T.Engine(P, opaque=LOOKUPS | {"chess_bitboard::BitBoard::pop_unchecked"})
     lv = eng.tabulate(CHECK_MASK)
-    board, ksq = ("obj", ("param", 0, "board")), ("param", 1, "king_sq")
+    board, ksq = ("obj", ("param", 0, "a0")), ("param", 1, "a1")
     ch = fld(board, "checkers")
     got = {}
     for lf in lv:
@@ -262,9 +284,9 @@ def r2(ctx):
         eng.trace_calls = {PUSH}
         recs, rets, loops, panics = loop_records(eng, key)
         site = P.body(key).get("def_span")
-        board = ("obj", ("param", 1, "board"))
+        board = ("obj", ("param", 1, "a1"))
         C = Ctxt(P, board)
-        mask = ("param", 2, "mask")
+        mask = ("param", 2, "a2")
         ksq = ("app", KING_SQ, (("refv", board), C.turn))
         own_set = C.AND(C.colors(C.turn), C.pieces(ty))
         cm_app = None
@@ -338,7 +360,7 @@ def r3(ctx):
     eng = T.Engine(P, opaque=LOOKUPS | {KING_SQ, NEXT})
     rets, loops, panics = eng.paths(LEGAL_KING)
     site = P.body(LEGAL_KING).get("def_span")
-    board, kp = ("obj", ("param", 0, "self")), ("param", 1, "king_pos")
+    board, kp = ("obj", ("param", 0, "self")), ("param", 1, "a1")
     for turn in ("White", "Black"):
         tc = ("adt", COLOR, turn, ())
         oc = ("adt", COLOR, "Black" if turn == "White" else "White", ())
@@ -385,7 +407,7 @@ def r3(ctx):
     eng.trace_calls = {PUSH}
     rets, loops, panics = eng.paths(key)
     site = P.body(key).get("def_span")
-    board, turn, mask = ("obj", ("param", 1, "board")), ("param", 2, "turn"), ("param", 3, "mask")
+    board, turn, mask = ("obj", ("param", 1, "a1")), ("param", 2, "a2"), ("param", 3, "a3")
     ksq = ("app", KING_SQ, (("refv", board), turn))
     km = word(("app", "chess_lookup::king_moves", (ksq,)))
     # filter loop: iterates king_moves(ksq) & mask, clears dest when !is_legal_king_position(dest)
@@ -475,7 +497,7 @@ def r5(ctx):
     eng.trace_calls = {PUSH}
     recs, rets, loops, panics = loop_records(eng, key)
     site = P.body(key).get("def_span")
-    board, mask = ("obj", ("param", 1, "board")), ("param", 2, "mask")
+    board, mask = ("obj", ("param", 1, "a1")), ("param", 2, "a2")
     C = Ctxt(P, board)
     turn = fld(board, "turn")
     ksq = ("app", KING_SQ, (("refv", board), turn))
